@@ -56,6 +56,18 @@ pub struct EntryOut {
     pub post_eof_zero: bool,
 }
 
+/// open the archive and report what the handle itself says (entry count, comment, names): for archives too
+/// large to read every entry of under every fault index
+pub fn open_outcome(store: &Shared, policy: &Policy, io_out: &mut Option<IoH>) -> Result<Vec<EntryOut>, String> {
+    let disk = SimDisk::new(store.clone(), policy.clone());
+    *io_out = Some(disk.io.clone());
+    let ar = ZipArchive::new(disk).map_err(|e| format!("open: {}", zerr_pub(&e)))?;
+    let mut names: Vec<&str> = ar.file_names().collect();
+    names.sort();
+    let nh = crate::rng::fnv(names.join("\u{0}").as_bytes());
+    Ok(vec![EntryOut { meta: format!("archive|{}|{:#x}|{:#x}", ar.len(), crc32(ar.comment()), nh), len: 0, crc: 0, err: None, post_eof_zero: true }])
+}
+
 /// read every entry through the seekable reader
 pub fn read_outcome(store: &Shared, policy: &Policy, bufs: &[u32], pw: &dyn Fn(usize) -> Option<Vec<u8>>, io_out: &mut Option<IoH>) -> Result<Vec<EntryOut>, String> {
     let disk = SimDisk::new(store.clone(), policy.clone());
